@@ -370,6 +370,23 @@ def _minmax(args, key, pick_less):
         seq = args[0]
         if isinstance(seq, SArr):
             return seq.min() if pick_less else seq.max()
+        if is_symbolic_iterable(seq) and has_symbolic_len(seq):
+            # max/min of a sequence of symbolic length: an extreme element (ValueError when empty)
+            from .arrays import bv, in_range
+            ctx = Ctx.cur
+            n = seq.vc_len()
+            if not ctx.branch(dim_term(n) > 0):
+                raise ValueError("max() iterable argument is empty" if not pick_less else "min() iterable argument is empty")
+            w = ctx.fresh_int("arg_extreme", lo=0)
+            ctx.assume(w.t < dim_term(n), "python:min/max of a sequence")
+            i = bv("a")
+            with ctx.binding(i, in_range(i, n)):
+                other = to_term(item_of(seq, SNum(i)))
+            # the extreme element is the item at position w: the same (Skolem) term instantiated at w
+            r = z3.substitute(other, (i, w.t))
+            ra, oa = core._coerce(r, other)
+            ctx.assume(z3.ForAll([i], z3.Implies(in_range(i, n), (ra <= oa) if pick_less else (ra >= oa))), "python:min/max of a sequence")
+            return SNum(r)
         args = list(seq)
     if key is not None or not builtins.any(is_sym(a) for a in args):
         return (builtins.min if pick_less else builtins.max)(args, key=key) if key else \
@@ -469,7 +486,8 @@ def vc_dict(*a, **k):
 
 
 def vc_set(x=()):
-    if is_symbolic_iterable(x) and has_symbolic_len(x):
+    from .containers import Compressed as _Compressed
+    if isinstance(x, _Compressed) or (is_symbolic_iterable(x) and has_symbolic_len(x)):
         from .containers import SymSet
         return SymSet.from_iterable(x)
     from .containers import SymSet
